@@ -67,6 +67,10 @@ CLAIMED = {
         technique="MIR guard facts and expression-tree pattern matching: liquidation guard and ratio selection, spot/TWAP selection sibling agreement, spread-limit tree, fee and partial-amount trees, receiver classes",
         note="Decided: R06.1 selected ratio <= maintenance on every Liquidate success path; R06.2 oracle ratio selected iff over-spread and (oracle - base) > 0, else the base ratio of (msg.vamm, msg.trader); R06.3 TWAP figures iff |spot pnl| > |twap pnl| in MarginRatio and FreeCollateral; R06.4 |((quote*D/base - oracle)*D)/oracle| >= D/10; R06.5 liquidator fee (output*fee/D)/2, only liquidator and insurance fund receive, position removed; R06.6 partial swap amount size*ratio/D, equal penalty halves. Not decided: numeric outcome; overshoot of a partial liquidation (C02 sign table).",
         design="4/C06"),
+    "C13": dict(
+        technique="MIR sibling-arm agreement on every branch over the collateral kind: transfer constructors compared by (receiver, amount), native required-funds increments compared as a multiset with the amounts the cw20 arm pulls from the trader on the path with the same other conditions",
+        note="Decided (the structural clause the 2-run relation rests on): R13.1 native and cw20 arms of every transfer constructor build the same (receiver, amount); R13.1b in the Open replies the native arm raises SentFunds.required by exactly what the cw20 arm pulls from the trader; R13.2 native terminal paths pass the exact-match check, the check accepts equality only, SentFunds is created only by OpenPosition with required=0; R13.3 no chain step pulls cw20 funds from the trader without native attached-funds accounting (known finding F10 on both close replies). Not decided: equality of the two runs' outcomes as such; allowance/balance failure modes.",
+        design="4/C13"),
 }
 
 NOT_BUILT = "rules designed in DESIGN.md section 4 but not built yet"
